@@ -47,6 +47,8 @@ def registry():
         from . import space_py
         space_py.register(_REG, PROPERTIES)
         space_py.register2(_REG, PROPERTIES)
+        from . import spmgr_py
+        spmgr_py.register(_REG, PROPERTIES)
         from . import serialize_py
         serialize_py.register(_REG, PROPERTIES)
         from . import registry_py
@@ -56,4 +58,5 @@ def registry():
         properties.register2(_REG, PROPERTIES)
         properties.register3(_REG, PROPERTIES)
         properties.register4(_REG, PROPERTIES)
+        properties.register5(_REG, PROPERTIES)
     return _REG
